@@ -357,13 +357,20 @@ func c19Replication(c *h.Ctx, id string, r *rand.Rand) {
 			}
 			when += " (snapshot reply delayed past later operations)"
 		}
+		// one catch-up in five loses its first fetch (timeout): the router's own retry must recover
+		lostBefore := s.nLostPfx
+		if r.Intn(5) == 0 {
+			s.mu.Lock()
+			s.losePfx = 1
+			s.mu.Unlock()
+		}
 		// peer catches up
 		if !s.notifyPrefixSync(0) {
 			c.Inconclusive(s.bad)
 			return false
 		}
 		// wait until the peer's known sequence reaches the latest (the fetch loop is the router's own)
-		deadline := time.Now().Add(10 * time.Second)
+		deadline := time.Now().Add(20 * time.Second)
 		for {
 			var known, latest uint64
 			peer.r.VerifLocked(func() {
@@ -374,7 +381,13 @@ func c19Replication(c *h.Ctx, id string, r *rand.Rand) {
 				break
 			}
 			if time.Now().After(deadline) {
-				c.Inconclusive("peer did not catch up within 10 s")
+				if s.nLostPfx > lostBefore {
+					// the only disturbance was one lost fetch, whose retry delay is 100 ms
+					c.Violation("C19:replication-stalls-after-lost-fetch", id, fmt.Sprintf("%s: one prefix-table fetch was lost (timeout); 20 s later the peer still knows sequence %d of %d and fetches nothing", when, known, latest),
+						map[string]any{"known": known, "latest": latest, "events_tail": s.events[max(0, len(s.events)-30):]})
+					return false
+				}
+				c.Inconclusive("peer did not catch up within 20 s")
 				return false
 			}
 			time.Sleep(time.Millisecond)
@@ -394,6 +407,12 @@ func c19Replication(c *h.Ctx, id string, r *rand.Rand) {
 		sort.Strings(want)
 		sort.Strings(got)
 		c.Count("replication_checks", 1)
+		if s.nLostPfx > lostBefore {
+			c.Count("catch_ups_after_a_lost_fetch", 1)
+		}
+		s.mu.Lock()
+		s.losePfx = 0
+		s.mu.Unlock()
 		if fmt.Sprint(want) != fmt.Sprint(got) {
 			gapCls := "sequential"
 			if sinceSync > 100 {
